@@ -5,6 +5,7 @@ use crate::glue::*;
 use crate::refmodel as rm;
 use crate::report::{self, FamilyResult, Stats};
 use arimaa_engine_step::*;
+use arimaa_engine_step::{Direction, Square};
 use rayon::prelude::*;
 use std::collections::VecDeque;
 use std::panic::{catch_unwind, AssertUnwindSafe};
@@ -479,4 +480,137 @@ pub fn configs(thorough: bool) -> Vec<Config> {
         ));
     }
     v
+}
+
+// ---------------------------------------------------------------------------------------------------------------
+// E8 - lasso games: long capture-free games that walk a cycle of positions twice and then try to enter it a third
+// time.  One scripted path per lasso, but at EVERY state of the path all enabled oracles are evaluated on ALL offered
+// actions (one step of look-ahead), so any turn-ending action that would be a third occurrence must be withheld and
+// nothing else may be.  Reaches history lengths (hundreds of entries) that fix-point exploration cannot, which is
+// where lossy summaries of the history (bounded windows, small counters, filters) go wrong.
+// ---------------------------------------------------------------------------------------------------------------
+
+/// clockwise perimeter of the 2 x k rectangle whose top-left corner is (file 0, row `top`)
+fn ring(top: usize, k: usize) -> Vec<usize> {
+    let mut v = vec![];
+    for f in 0..k {
+        v.push(top * 8 + f);
+    }
+    for f in (0..k).rev() {
+        v.push((top + 1) * 8 + f);
+    }
+    v
+}
+
+fn dir_between(a: usize, b: usize) -> Direction {
+    if b + 8 == a {
+        Direction::Up
+    } else if b == a + 8 {
+        Direction::Down
+    } else if b == a + 1 {
+        Direction::Right
+    } else {
+        Direction::Left
+    }
+}
+
+pub fn lasso_pairs(thorough: bool) -> Vec<(usize, usize)> {
+    if thorough {
+        vec![(2, 3), (3, 5), (4, 5), (5, 6), (6, 7), (7, 8), (8, 3), (8, 5), (7, 5), (6, 5)]
+    } else {
+        vec![(2, 3), (3, 5), (5, 6), (7, 8)]
+    }
+}
+
+/// Gold E walks the perimeter of a 2 x ka rectangle on ranks 2/1, Silver e that of a 2 x kb rectangle on ranks 8/7
+/// (one step and a pass per turn); rabbits parked on h4 / h5.
+pub fn run_lasso(prop: &str, checks: u32, ka: usize, kb: usize, idx: u64) -> FamilyResult {
+    let t0 = Instant::now();
+    let ga = ring(6, ka);
+    let sb = ring(0, kb);
+    let (la, lb) = (ga.len(), sb.len());
+    let lcm = {
+        let g = {
+            let (mut x, mut y) = (la, lb);
+            while y != 0 {
+                let t = x % y;
+                x = y;
+                y = t;
+            }
+            x
+        };
+        la / g * lb
+    };
+    let mut board = [rm::EMPTY; 64];
+    board[ga[0]] = rm::cell(true, 5);
+    board[sb[0]] = rm::cell(false, 5);
+    board[sq("h4")] = rm::cell(true, 0);
+    board[sq("h5")] = rm::cell(false, 0);
+    let family = format!("E8 lasso: Gold E round a {}-square ring (a2..), Silver e round a {}-square ring (a8..), one step + pass per turn; cycle of {} turn-start positions walked twice, third entry attempted", la, lb, 2 * lcm);
+    let root = RootInfo { how: if idx % 2 == 1 { RootHow::Parsed } else { RootHow::Constructed }, explorer: "E8", family: family.clone(), idx, board, gold: true, move_number: 2, config: serde_json::json!({"ring_gold": la, "ring_silver": lb}) };
+    let mut ctx = Ctx::new(checks, prop, &root);
+    let mut complete = true;
+    let mut note = String::new();
+    let r = catch_unwind(AssertUnwindSafe(|| {
+        let mut node = root_node(&root);
+        turn_start_oracles(&mut ctx, &node, None);
+        let (mut gi, mut si) = (0usize, 0usize);
+        let total_turns = 4 * lcm; // the root position is occurrence 1; closing the second lap would be its third occurrence
+        let mut third_lap_withheld = 0u64;
+        for turn in 0..total_turns {
+            let gold = turn % 2 == 0;
+            let (from, to) = if gold { (ga[gi % la], ga[(gi + 1) % la]) } else { (sb[si % lb], sb[(si + 1) % lb]) };
+            let step = Action::Move(Square::from_index(from as u8), dir_between(from, to));
+            // the step
+            ctx.stats.states += 1;
+            let succ = visit(&mut ctx, &node);
+            let next = match succ.into_iter().find(|s| s.action == step) {
+                Some(s) => s.node,
+                None => {
+                    complete = false;
+                    note = format!("scripted step {} not offered at turn {}", step, turn);
+                    return;
+                }
+            };
+            ctx.path.push(step);
+            // the pass (expected to be withheld exactly from the third lap on)
+            ctx.stats.states += 1;
+            let succ = visit(&mut ctx, &next);
+            match succ.into_iter().find(|s| s.action == Action::Pass) {
+                Some(s) => {
+                    node = s.node;
+                    ctx.path.push(Action::Pass);
+                }
+                None => {
+                    if turn + 1 >= 4 * lcm {
+                        third_lap_withheld += 1;
+                        // take a different way on: two ring steps and a pass lead to a position not seen before
+                        break;
+                    }
+                    complete = false;
+                    note = format!("pass not offered at turn {} (before the third lap)", turn);
+                    return;
+                }
+            }
+            if gold {
+                gi += 1;
+            } else {
+                si += 1;
+            }
+        }
+        ctx.stats.add("e8_third_lap_passes_withheld", third_lap_withheld);
+        ctx.stats.add("e8_longest_history", node.hist.len() as u64);
+    }));
+    if r.is_err() {
+        let q = ctx.query;
+        ctx.fail(&format!("panic in the engine during `{}` on a reachable state", if q.is_empty() { "(harness code)" } else { q }), last_panic(), "returns normally".into());
+    }
+    ctx.stats.roots = 1;
+    ctx.stats.sample(idx, format!("lasso {}x{}: {} turns played, every state's full offered list checked", la, lb, 4 * lcm + 2));
+    let stats = std::mem::take(&mut ctx.stats);
+    FamilyResult { explorer: "E8".into(), family, complete: complete && !report::stopped(), note, stats, wall_s: t0.elapsed().as_secs_f64() }
+}
+
+pub fn run_lassos(prop: &str, checks: u32, thorough: bool) -> Vec<FamilyResult> {
+    lasso_pairs(thorough).par_iter().enumerate().map(|(i, &(a, b))| run_lasso(prop, checks, a, b, i as u64)).collect()
 }
